@@ -208,6 +208,13 @@ def build(reg, src):
            ghost_at_call=lambda eng, st, s, r: 'find_calls' in st.ghost and st.ghost.__setitem__('find_calls', VList(st.ghost['find_calls'].items + [VTuple([s.fn, r])])))
 
     # ---------------- KlongInterpreter item access
+    # the compiled-expression cache has to be cleared on every (re)binding and deletion UNLESS every call of compiled code is guarded by
+    # the admission test on the actual arguments (contracts/c05_values.call_guard, itself an obligation of C04/C05): then code left in the
+    # cache is only ever called on the kinds it is valid for (a deleted variable: the lookup raises inside the contained try) and clearing
+    # is an optimisation decision, not something the property needs
+    from contracts import c05_values as _cv
+    guard_ok = _cv.call_guard(src)[0]
+
     def ki_setup(eng, st):
         c03.klong_setup(eng, st)
         st.ghost['ctx_sets'] = VList([])
@@ -227,7 +234,7 @@ def build(reg, src):
         if len(sets) != 1:
             return VBool(False)
         kk, vv = sets[0].items
-        return And(key_ok(s, kk), same(vv, s.v0), s.g('cache_cleared') >= 1)
+        return And(key_ok(s, kk), same(vv, s.v0), Or(VBool(guard_ok), s.g('cache_cleared') >= 1))
 
     reg.fn(KI + '__setitem__', setup=ki_setup, requires=[c03.inv_k], returns=None, ensures=[ki_set_post, c03.pres_k],
            ensures_exc=[lambda s, e: VBool(len(s.st.ghost['ctx_sets'].items) <= 1)])
@@ -247,7 +254,7 @@ def build(reg, src):
         dels = s.st.ghost['ctx_dels'].items
         if len(dels) != 1:
             return VBool(False)
-        return And(key_ok(s, dels[0]), s.g('cache_cleared') >= 1)
+        return And(key_ok(s, dels[0]), Or(VBool(guard_ok), s.g('cache_cleared') >= 1))
     reg.fn(KI + '__delitem__', setup=ki_setup, requires=[c03.inv_k], returns=None, ensures=[ki_del_post, c03.pres_k])
 
     # ---------------- _resolve_fn: a symbol bound to a Python callable (a bare KGLambda, e.g. imported by .py) resolves to that
